@@ -406,6 +406,11 @@ func (c *ctx) stmt(fc *fileCtx, s ast.Stmt, fn fnCtx, res *Result) {
 		}
 		for _, cc := range s.Body.List {
 			cl := cc.(*ast.CommClause)
+			if cl.Comm != nil {
+				// the real select did a channel operation the simulator did not see: tasks
+				// parked on that channel must get a chance to retry
+				c.insert(fc, cl.Colon+1, "simrt.WakeAll();")
+			}
 			c.stmtList(fc, cl.Body, fn, res, false)
 		}
 	case *ast.GoStmt:
